@@ -120,6 +120,10 @@ def check_case(case):
         res.tag('span-shorter-than-lags+leads+1')
         res.nontrivial = True
         touched = [i for i in range(n) if str(m.status[i]) != '-' or int(m.iterations[i]) != -1]
+        offered = attempt(lambda: [i for i, _ in m.iter_periods()])       # the default range itself
+        if offered.ok and offered.value:
+            res.fail('default-range/period-offered-on-too-short-span',
+                     f'{text!r} {kw}: LAGS={L} LEADS={K} on {n} period(s): iter_periods() offers positions {offered.value}')
         if (out.ok and list(out.value[1])) or touched:
             res.fail('default-range/period-offered-on-too-short-span',
                      f'{text!r} {kw}: LAGS={L} LEADS={K} on {n} period(s): solve() -> {out!r}, status {list(m.status)}')
@@ -130,6 +134,10 @@ def check_case(case):
         return res
     labels, indexes, solved = out.value
     want_idx = list(range(L, n - K))
+    offered = attempt(lambda: [i for i, _ in m.iter_periods()])
+    if not offered.ok or offered.value != want_idx:
+        res.fail('default-range/iter_periods' + ('/override' if kw else ''),
+                 f'{text!r} {kw} on {n} periods: iter_periods() -> {offered!r}, expected positions {want_idx}')
     if list(indexes) != want_idx or list(labels) != [span[i] for i in want_idx]:
         res.fail('default-range' + ('/override' if kw else ''),
                  f'{text!r} {kw} on {n} periods: solved positions {list(indexes)}, expected {want_idx}')
